@@ -460,6 +460,19 @@ def c15_jobs(tier):
         for first in range(nb):
             jobs.append(_job("hist_pair", "%s/first=%d" % (cls, first), {"cls": cls, "tier": tier, "first": first},
                              w=3, deadline=3000))
+    # cross-class pairs (shared tables / memos between classes) and cross-cost pairs (a cache keyed
+    # without the costs): the first schedule comes from another class's box / has another cost vector
+    cross = [(a, b) for a in REVOLVE_FAMILY for b in REVOLVE_FAMILY if a != b] + \
+            [("Multistage", "TwoLevel"), ("TwoLevel", "Multistage"), ("Multistage", "Mixed"), ("Mixed", "Multistage")]
+    step = 4 if q else 2
+    for a, b in cross:
+        for first in range(0, len(pair_box(a, tier)), step):
+            jobs.append(_job("hist_pair", "%s->%s/first=%d" % (a, b, first),
+                             {"cls": b, "tier": tier, "first": first, "cls_first": a}, w=3, deadline=3000))
+    for a in REVOLVE_FAMILY:
+        for first in range(0, len(pair_box(a, tier)), step):
+            jobs.append(_job("hist_pair", "%s/othercost/first=%d" % (a, first),
+                             {"cls": a, "tier": tier, "first": first, "cost_first": [3, 1, 0.5, 4]}, w=3, deadline=3000))
     for j in jobs:
         # no symbolic value flows into the code here (only solver-enumerated choice indices), so the
         # concrete twin run of a path would be the identical execution: skipped
@@ -474,7 +487,9 @@ PROPS["C15"] = {
                             "baseline": "streams computed in a fresh interpreter (subprocess)",
                             "same_family_pairs": "every ordered pair (first, target) of a parameter box per class (Multistage n<=8/12, "
                                                  "Mixed n<=9/14, TwoLevel n<=7/10, Revolve family n<=9/13 with ram<=3, disk<=3/4, default costs); "
-                                                 "first is exhausted, advanced 4 actions, or only constructed"},
+                                                 "first is exhausted, advanced 4 actions, or only constructed",
+                            "cross_pairs": "first from another class (all ordered pairs within the Revolve family; Multistage<->TwoLevel, "
+                                           "Multistage<->Mixed) or the same class with another cost vector; every 4th/2nd instance of the box as first"},
     "outside": ["histories longer than 2 operations", "parameters outside the instance list (chosen to collide on memo keys)",
                 "threads"],
     "trusted": ["z3 (enumeration of feasible choice vectors and certificate of exhaustion)"],
